@@ -18,9 +18,25 @@ Theorem never_reports_wildcards fi s : report_atom fi s ARange = [] /\ forall e,
 Proof. split; reflexivity. Qed.
 
 (* a restraint whose atoms all exist in every addressed residue produces no message *)
-Definition suffix_ok (s : suffix) : Prop := match s with SNum k => (0 <= k)%Z | _ => True end.
+Definition suffix_ok (fi : file_index) (s : suffix) : Prop :=
+  match s with
+  | SNum k => (0 <= k)%Z
+  | SStar => forall n, In n (map fst (fi_residues fi)) -> (0 <= n)%Z      (* residue numbers of RESI instructions are not negative *)
+  | _ => True
+  end.
 
-Theorem complete_restraint_silent fi s atoms : suffix_ok s ->
+Lemma zsum_zero l : (forall n, In n l -> n = 0%Z) -> zsum l = 0%Z.
+Proof.
+  unfold zsum. intros H. assert (G : forall acc, fold_left Z.add l acc = acc).
+  { induction l as [|x r IH]; intros acc; cbn [fold_left]; [reflexivity|].
+    rewrite (H x (or_introl eq_refl)), Z.add_0_r. apply IH. intros n I. apply H. right. exact I. }
+  apply G.
+Qed.
+
+Lemma zsum_nil_pos l : (0 < zsum l)%Z -> l <> [].
+Proof. intros H E. subst l. cbv in H. discriminate H. Qed.
+
+Theorem complete_restraint_silent fi s atoms : suffix_ok fi s ->
   (forall a, In a atoms -> must_not_report fi s a) -> reported fi s atoms = [].
 Proof.
   intros OK H. unfold reported. induction atoms as [|a r IH]; [reflexivity|].
@@ -36,7 +52,14 @@ Proof.
       assert (F : filter (fun n => negb (has_atom fi name n)) (x :: l) = []).
       { clear -H. induction (x :: l) as [|y t IH]; [reflexivity|]. cbn [filter]. rewrite (H y (or_introl eq_refl)). cbn [negb]. apply IH. intros; apply H; right; assumption. }
       rewrite F. reflexivity.
-    + cbn [zsum fold_left Z.add Z.ltb]. rewrite (H 0%Z (or_introl eq_refl)). reflexivity.
+    + cbn [suffix_ok] in OK. set (nums := map fst (fi_residues fi)) in *.
+      destruct (zsum_pos_in nums OK) as [P | Z0].
+      * apply Z.ltb_lt in P. rewrite P.
+        assert (F : filter (fun n => negb (has_atom fi name n)) nums = []).
+        { clear -H. induction nums as [|y t IH]; [reflexivity|]. cbn [filter]. rewrite (H y (or_introl eq_refl)). cbn [negb]. apply IH. intros; apply H; right; assumption. }
+        rewrite F. reflexivity.
+      * rewrite (zsum_zero nums Z0). cbn [Z.ltb Z.compare]. destruct nums as [|x l]; [contradiction|].
+        assert (x = 0%Z) by (apply Z0; left; reflexivity). subst x. rewrite (H 0%Z (or_introl eq_refl)). reflexivity.
   - cbn [must_not_report] in H. unfold all_residues in H.
     assert (F : filter (fun n => negb (has_atom fi name n)) (map fst (fi_residues fi)) = []).
     { induction (map fst (fi_residues fi)) as [|y t IHt]; [reflexivity|]. cbn [filter]. rewrite (H y (or_introl eq_refl)). cbn [negb]. apply IHt. intros; apply H; right; assumption. }
@@ -44,7 +67,7 @@ Proof.
 Qed.
 
 (* an atom that exists in none of the addressed residues is reported *)
-Theorem missing_atom_reported fi s a atoms : suffix_ok s -> In a atoms -> must_report fi s a -> reported fi s atoms <> [].
+Theorem missing_atom_reported fi s a atoms : suffix_ok fi s -> In a atoms -> must_report fi s a -> reported fi s atoms <> [].
 Proof.
   intros OK I M. unfold reported.
   assert (R : report_atom fi s a <> []).
@@ -56,7 +79,12 @@ Proof.
         assert (k = 0%Z) by lia. subst k. rewrite (M 0%Z (or_introl eq_refl)). discriminate.
       + destruct (map fst (filter (fun r0 => str_eqb (snd r0) c) (fi_residues fi))) as [|x l] eqn:E; [contradiction|].
         cbn [filter]. rewrite (M x (or_introl eq_refl)). cbn [negb map]. discriminate.
-      + cbn [zsum fold_left Z.add Z.ltb]. rewrite (M 0%Z (or_introl eq_refl)). discriminate.
+      + cbn [suffix_ok] in OK. set (nums := map fst (fi_residues fi)) in *.
+        destruct nums as [|x l] eqn:EN; [contradiction|].
+        destruct (zsum_pos_in (x :: l) OK) as [P | Z0].
+        * apply Z.ltb_lt in P. rewrite P. cbn [filter]. rewrite (M x (or_introl eq_refl)). cbn [negb map]. discriminate.
+        * rewrite (zsum_zero (x :: l) Z0). cbn [Z.ltb Z.compare].
+          assert (x = 0%Z) by (apply Z0; left; reflexivity). subst x. rewrite (M 0%Z (or_introl eq_refl)). discriminate.
     - unfold all_residues in *. destruct (map fst (fi_residues fi)) as [|x l]; [contradiction|].
       cbn [filter]. rewrite (M x (or_introl eq_refl)). cbn [negb map]. discriminate. }
   clear M. induction atoms as [|b r IH]; [destruct I|]. cbn [flat_map]. destruct I as [<- | I].
@@ -93,7 +121,7 @@ Qed.
 
 (* The complete characterisation (per-residue reading): a message names (name, residue n) exactly when some item of the
    restraint asks for that name in residue n and the file has no such atom. *)
-Lemma report_atom_exactly fi s a name n : suffix_ok s ->
+Lemma report_atom_exactly fi s a name n : suffix_ok fi s ->
   (exists o, res_of o = n /\ In (name, o) (report_atom fi s a)) <-> (In (name, n) (asked fi s a) /\ has_atom fi name n = false).
 Proof.
   intros OK. destruct a as [| e | nm [k|] | nm]; cbn [report_atom asked addressed].
@@ -104,23 +132,43 @@ Proof.
       cbn [res_of] in E. subst n. split; [left; reflexivity | exact H].
     + intros [[I | []] H]. injection I as <- <-. rewrite H. exists (Some k). split; [reflexivity | left; reflexivity].
   - (* bare name: the keyword decides *)
-    assert (RN : residue_numbers fi s = match addressed fi s None with [] => [0%Z] | l => l end).
-    { destruct s as [| k | c |]; reflexivity. }
-    cbn [addressed] in RN.
-    destruct (has_class s || Z.ltb 0 (zsum (residue_numbers fi s))) eqn:B.
-    + rewrite <- RN. split.
+    assert (PER : forall nums L, nums <> [] -> L = nums ->
+      ((exists o, res_of o = n /\ In (name, o) (map (fun n0 => (nm, Some n0)) (filter (fun n0 => negb (has_atom fi nm n0)) nums))) <->
+       (In (name, n) (map (pair nm) L) /\ has_atom fi name n = false))).
+    { intros nums L NE EL. subst L. split.
       * intros (o & E & I). apply in_map_iff in I. destruct I as (m & P & F). injection P as <- <-. cbn [res_of] in E. subst m.
         apply filter_In in F. destruct F as [F1 F2]. apply negb_true_iff in F2. split; [apply in_map; exact F1 | exact F2].
       * intros [I H]. apply in_map_iff in I. destruct I as (m & P & I). injection P as P1 P2; subst nm m. exists (Some n). split; [reflexivity|].
-        apply in_map_iff. exists n. split; [reflexivity|]. apply filter_In. split; [exact I | rewrite H; reflexivity].
-    + (* neither class nor positive number: residue 0 *)
-      assert (N0 : residue_numbers fi s = [0%Z]).
-      { destruct s as [| k | c |]; cbn [has_class orb residue_numbers] in *; try reflexivity; [|discriminate B].
-        cbn [zsum fold_left Z.add] in B. cbn [suffix_ok] in OK. apply Z.ltb_ge in B. replace k with 0%Z by lia. reflexivity. }
-      rewrite <- RN, N0. cbn [map]. split.
+        apply in_map_iff. exists n. split; [reflexivity|]. apply filter_In. split; [exact I | rewrite H; reflexivity]. }
+    assert (ZERO : ((exists o, res_of o = n /\ In (name, o) (if has_atom fi nm 0 then [] else [(nm, None)])) <->
+                    (In (name, n) [(nm, 0%Z)] /\ has_atom fi name n = false))).
+    { split.
       * intros (o & E & I). destruct (has_atom fi nm 0) eqn:H; [destruct I|]. destruct I as [I | []]. injection I as <- <-.
         cbn [res_of] in E. subst n. split; [left; reflexivity | exact H].
-      * intros [[I | []] H]. injection I as <- <-. rewrite H. exists None. split; [reflexivity | left; reflexivity].
+      * intros [[I | []] H]. injection I as <- <-. rewrite H. exists None. split; [reflexivity | left; reflexivity]. }
+    destruct s as [| k | c |]; cbn [residue_numbers has_class orb].
+    + cbn [zsum fold_left Z.add Z.ltb Z.compare map]. exact ZERO.
+    + cbn [suffix_ok] in OK. cbn [zsum fold_left Z.add]. destruct (Z.ltb_spec 0 k).
+      * apply (PER [k]); [discriminate | reflexivity].
+      * assert (k = 0%Z) by lia. subst k. cbn [map]. exact ZERO.
+    + destruct (map fst (filter (fun r0 => str_eqb (snd r0) c) (fi_residues fi))) as [|x l] eqn:E.
+      * cbn [filter map]. destruct (has_atom fi nm 0) eqn:H0; cbn [negb map].
+        -- split; [intros (o & _ & []) | intros [[I | []] H]]. injection I as <- <-. rewrite H0 in H. discriminate H.
+        -- split.
+           ++ intros (o & Eo & [I | []]). injection I as <- <-. cbn [res_of] in Eo. subst n. split; [left; reflexivity | exact H0].
+           ++ intros [[I | []] H]. injection I as <- <-. exists (Some 0%Z). split; [reflexivity | left; reflexivity].
+      * apply (PER (x :: l)); [discriminate | reflexivity].
+    + cbn [suffix_ok] in OK. set (nums := map fst (fi_residues fi)) in *.
+      destruct (zsum_pos_in nums OK) as [P | Z0].
+      * pose proof (zsum_nil_pos nums P) as NE. apply Z.ltb_lt in P. rewrite P. apply (PER nums); [exact NE | destruct nums; [contradiction | reflexivity]].
+      * rewrite (zsum_zero nums Z0). cbn [Z.ltb Z.compare].
+        destruct nums as [|x l]; [cbn [map]; exact ZERO|].
+        assert (X0 : x = 0%Z) by (apply Z0; left; reflexivity).
+        split.
+        -- intros Hex. apply ZERO in Hex. destruct Hex as [[I | []] H]. injection I as <- <-. split; [|exact H].
+           cbn [map]. left. rewrite X0. reflexivity.
+        -- intros [I H]. apply ZERO. split; [|exact H]. apply in_map_iff in I. destruct I as (m & Pm & I). injection Pm as <- <-.
+           rewrite (Z0 m I). left; reflexivity.
   - unfold all_residues. split.
     + intros (o & E & I). apply in_map_iff in I. destruct I as (m & P & F). injection P as <- <-. cbn [res_of] in E. subst m.
       apply filter_In in F. destruct F as [F1 F2]. apply negb_true_iff in F2. split; [apply in_map; exact F1 | exact F2].
@@ -128,7 +176,7 @@ Proof.
       apply in_map_iff. exists n. split; [reflexivity|]. apply filter_In. split; [exact I | rewrite H; reflexivity].
 Qed.
 
-Theorem reported_exactly fi s atoms name n : suffix_ok s ->
+Theorem reported_exactly fi s atoms name n : suffix_ok fi s ->
   (exists o, res_of o = n /\ In (name, o) (reported fi s atoms)) <->
   (exists a, In a atoms /\ In (name, n) (asked fi s a) /\ has_atom fi name n = false).
 Proof.
@@ -145,6 +193,14 @@ Example star_example :
                fi_residues := [(1%Z, lit "TOL"); (2%Z, lit "TOL"); (3%Z, lit "")] |} in
   reported fi SNone [AStar (lit "N1"); AStar (lit "C2")] = [(lit "C2", Some 2%Z)].
 Proof. vm_compute. reflexivity. Qed.
+
+(* the keyword suffix _* addresses every residue of the file (and not residue 0, where N1 does not exist here) *)
+Example keyword_star_example :
+  let fi := {| fi_atoms := [(lit "O1", 0%Z); (lit "N1", 1%Z); (lit "C2", 1%Z); (lit "N1", 2%Z)];
+               fi_residues := [(1%Z, lit "TOL"); (2%Z, lit "TOL")] |} in
+  reported fi SStar [AName (lit "N1") None; AName (lit "C2") None] = [(lit "C2", Some 2%Z)]
+  /\ suffix_ok fi SStar.
+Proof. split; [vm_compute; reflexivity|]. cbn. intros n [<- | [<- | []]]; discriminate. Qed.
 
 Example restr_example :
   let fi := {| fi_atoms := [(lit "C1", 0%Z); (lit "C1", 1%Z); (lit "C3", 1%Z); (lit "C1", 2%Z)]; fi_residues := [(1%Z, lit "TOL"); (2%Z, lit "TOL")] |} in
